@@ -38,7 +38,7 @@ pub struct TlS {
     pub kfs: Vec<KfS>,
 }
 
-pub const DURATIONS: [(&str, f64); 12] = [("1s", 1.0), ("5s", 5.0), ("0.5s", 0.5), ("2.5s", 2.5), ("250ms", 0.25), ("1500ms", 1.5), ("1_500ms", 1.5), ("2e3ms", 2.0), ("for 2s", 2.0), ("for 750ms", 0.75), ("0s", 0.0), ("0.0ms", 0.0)];
+pub const DURATIONS: [(&str, f64); 13] = [("1s", 1.0), ("5s", 5.0), ("0.5s", 0.5), ("2.5s", 2.5), ("250ms", 0.25), ("1500ms", 1.5), ("1_500ms", 1.5), ("2e3ms", 2.0), ("for 2s", 2.0), ("for 750ms", 0.75), ("0s", 0.0), ("0.0ms", 0.0), ("1.0000000596046448s", 1.0000000596046448)];
 pub const DELAYS: [(&str, f64); 3] = [("after 1s", 1.0), ("after 250ms", 0.25), ("after 0.5s", 0.5)];
 pub const REPEATS: [(&str, Option<u32>); 5] = [("1x", Some(1)), ("3x", Some(3)), ("infinite", None), ("16_777_217x", Some(16_777_217)), ("4294967295x", Some(u32::MAX))];
 pub const EASINGS: [&str; 3] = ["Easing::OutQuad", "mina::Easing::In", "MY_EASE"];
@@ -149,6 +149,24 @@ fn within_1ulp(got: f32, exact: f64) -> bool {
     got == nearest || (nearest > 0.0 && (got == lo || got == hi)) || (nearest == 0.0 && got == 0.0)
 }
 
+/// For a time literal written in seconds (`2.5s`, `for 2s`, `after 1s`) the builder call must receive exactly the
+/// f32 nearest to the decimal text (no unit arithmetic is involved, so there is nothing to round twice); `ms`
+/// literals and percentages are multiplied by a constant and get the 1-ulp allowance.
+fn seconds_literal_exact(text: &str) -> Option<f32> {
+    let t = text.trim_start_matches("for ").trim_start_matches("after ").trim();
+    if t.ends_with("ms") || !t.ends_with('s') {
+        return None;
+    }
+    t[..t.len() - 1].replace('_', "").parse::<f32>().ok()
+}
+
+fn time_ok(got: f32, want: &Num) -> bool {
+    match seconds_literal_exact(want.text) {
+        Some(e) => got.to_bits() == e.to_bits(),
+        None => within_1ulp(got, want.exact),
+    }
+}
+
 fn norm_expr(s: &str) -> String {
     s.replace(' ', "")
 }
@@ -160,12 +178,12 @@ pub fn conforms(got: &TlN, want: &TlS, target: &str) -> Result<(), String> {
     }
     match (&got.duration, &want.duration) {
         (None, None) => {}
-        (Some(g), Some(w)) if within_1ulp(*g, w.exact) => {}
+        (Some(g), Some(w)) if time_ok(*g, w) => {}
         (g, w) => return Err(format!("duration: expansion sets {:?}, `{}` means {:?} s", g, w.as_ref().map(|x| x.text).unwrap_or("(absent)"), w.as_ref().map(|x| x.exact))),
     }
     match (&got.delay, &want.delay) {
         (None, None) => {}
-        (Some(g), Some(w)) if within_1ulp(*g, w.exact) => {}
+        (Some(g), Some(w)) if time_ok(*g, w) => {}
         (g, w) => return Err(format!("delay: expansion sets {:?}, `{}` means {:?} s", g, w.as_ref().map(|x| x.text).unwrap_or("(absent)"), w.as_ref().map(|x| x.exact))),
     }
     match (&got.repeat, &want.repeat) {
